@@ -438,6 +438,13 @@ func (r *runner) prep(ia addr.IA) (node *Node, peers []uint16) {
 	node = r.n.nodes[ia]
 	p := r.n.P
 	node.maxExp = p.ExpTimeMin + uint8(r.rng.IntN(int(p.ExpTimeMax-p.ExpTimeMin)+1))
+	// the ends of the configured range are drawn more often than the values between them
+	switch r.rng.IntN(8) {
+	case 0, 1:
+		node.maxExp = p.ExpTimeMax
+	case 2:
+		node.maxExp = p.ExpTimeMin
+	}
 	peers = []uint16{}
 	for _, id := range node.Peers() {
 		if p.DropPeerPct > 0 && r.rng.IntN(100) < p.DropPeerPct {
